@@ -50,6 +50,19 @@ func escaperSummary(p *eng.Prog, fn *ssa.Function, cache map[*ssa.Function]int) 
 			if op == nil || *op == nil {
 				continue
 			}
+			// the replacements may be listed in a read-only package-level table the function walks
+			if g, ok := (*op).(*ssa.Global); ok && g.Pkg == fn.Pkg {
+				if strs, ok := eng.GlobalLiteralStrings(g); ok {
+					for _, s := range strs {
+						if s == "|" {
+							got |= escPipe
+						}
+						if s == "\n" {
+							got |= escNL
+						}
+					}
+				}
+			}
 			if s, ok := eng.ConstString(*op); ok {
 				if s == "|" {
 					got |= escPipe
